@@ -84,3 +84,35 @@ Theorem C18_ubj_scripts_same_data : forall sc1 sc2 s fuel,
             UV.udrain (S (length (concat (map fst sc1)))) fuel (UV.ureader_dec sc2) s = Ok o.
 Proof. exact UV.C18_ubj_scripts_same_data. Qed.
 Print Assumptions C18_ubj_scripts_same_data.
+
+(* JSON pull decoder.  From any reachable parser state, over any reader script and for any
+   visitor behaviour Next returns (no crash, no missing fuel); a nil Next delivered a non-empty
+   list of events that is the flattening of one tree, left the parser idle and consumed input;
+   two well-behaved scripts with the same data give the same sequence of (events, verdict)
+   per Next call, whatever their read sizes.
+   PARTIAL: the tree of a nil Next is not shown well-formed here (C04 covers reference-valid
+   inputs), "consumed" is a length measure. *)
+From SF Require Json.Parse Json.ParseSafety Json.ParseVisitorProofs.
+Module JP := SF.Json.Parse.
+Module JV := SF.Json.ParseVisitorProofs.
+Theorem C18_json_next_total : forall (pf : bytes -> option Z) fuel d s,
+  SF.Json.ParseSafety.inv (JP.jd_p d) -> (JV.jmeasure d < fuel)%nat ->
+  exists d' s' e, JP.jdec_next fuel pf d s = Ok (d', s', e) /\ (e = JP.jpnil -> SF.Json.ParseSafety.inv (JP.jd_p d')) /\
+                  (JV.jmeasure d' <= JV.jmeasure d)%nat.
+Proof. exact JV.C18_json_next_total. Qed.
+Print Assumptions C18_json_next_total.
+
+Theorem C18_json_next_one_value : forall (pf : bytes -> option Z) fuel d s d' s',
+  JV.W (JP.jd_p d) -> JP.jp_cur (JP.jd_p d) = JP.jStart -> JV.jscript_ok (JP.jd_script d) ->
+  JP.jdec_next fuel pf d s = Ok (d', s', JP.jpnil) ->
+  exists t, s' = JV.s_add s (flatten t).
+Proof. exact JV.C18_json_next_tree. Qed.
+Print Assumptions C18_json_next_one_value.
+
+Theorem C18_json_scripts_same_data : forall (pf : bytes -> option Z) k sc1 sc2 s fuel,
+  JV.script_okb sc1 = true -> JV.script_okb sc2 = true ->
+  concat (map fst sc1) = concat (map fst sc2) ->
+  (2 * length sc1 + 1 <= fuel)%nat -> (2 * length sc2 + 1 <= fuel)%nat ->
+  exists l, JV.jdec_run pf fuel k (JV.jreader_dec sc1) s = Ok l /\ JV.jdec_run pf fuel k (JV.jreader_dec sc2) s = Ok l.
+Proof. exact JV.C18_json_scripts_same_data. Qed.
+Print Assumptions C18_json_scripts_same_data.
